@@ -21,7 +21,12 @@ type Lab struct {
 	Model *proc.P
 	Real  *proc.P
 	Flags map[string]bool // behaviour flags of the current tree (probed), passed to the model
+	// Crashes counts worker crashes and timeouts; past the budget the real side is no longer called (a mutant that hangs on
+	// every other input would otherwise cost a timeout per sample)
+	Crashes int
 }
+
+const crashBudget = 8
 
 func DriverPath() string {
 	return filepath.Join(ev.VerifDir(), "lean", ".lake", "build", "bin", "gsdriver")
@@ -72,9 +77,13 @@ func (l *Lab) Valid(doc []byte) bool {
 
 // RunReal runs the real analyser (in the worker process) on two rendered documents.
 func (l *Lab) RunReal(a, b []byte) *Result {
+	if l.Crashes >= crashBudget {
+		return &Result{R: "crash", Why: "worker crash budget exhausted"}
+	}
 	req, _ := json.Marshal(map[string]interface{}{"op": "diff.analyse", "a": json.RawMessage(a), "b": json.RawMessage(b)})
 	out, err := l.Real.Call(req)
 	if err != nil {
+		l.Crashes++
 		return &Result{R: map[error]string{proc.ErrTimeout: "timeout", proc.ErrCrash: "crash"}[err], Why: err.Error()}
 	}
 	r, err := ParseResult(out)
@@ -170,7 +179,7 @@ func (l *Lab) Compare(a, b *Spec, ja, jb []byte) (model, real *Result, verdict s
 	model = l.RunModel(a, b)
 	real = l.RunReal(ja, jb)
 	verdict = Agreement(model, real)
-	if verdict == "agree" || verdict == "order-sensitive" {
+	if verdict == "agree" || verdict == "order-sensitive" || real.R == "crash" || real.R == "timeout" {
 		return
 	}
 	first := multiset(real.Diffs, false)
